@@ -621,7 +621,8 @@ func TestCheck(t *testing.T) {
 		wg.Wait()
 		// the same old states read through the node's JSON-RPC server
 		if run.Want(fmt.Sprintf("h%d/rpc", hi)) {
-			if n, err := vrpc.Start(t, rep.BC, nil); err != nil {
+			// small server-side page limits, so that paged searches really page
+			if n, err := vrpc.Start(t, rep.BC, func(c *config.RPC) { c.MaxFindStorageResultItems = 3 + hi%5; c.MaxFindResultItems = 4 + hi%7 }); err != nil {
 				run.Inconclusive("h%d: cannot start the RPC server on a loopback port: %v", hi, err)
 			} else {
 				rr2 := rng.New(uint64(hi) + 9000)
